@@ -202,13 +202,44 @@ Definition score_check (pols : list policy) (op : cop) (o : nobs) : list N :=
   | Some sc => if optZ_eqb (map (fun p => score_key (scoreNode p (o_cap o) (o_avail o))) pols) sc then [] else [1%N]
   end.
 
-Fixpoint node_steps (pols : list policy) (cd : coll * list N) (l : list (cop * nobs)) : list N :=
+(* "reflects current utilisation": the scores the implementation computes order the registered nodes
+   exactly like the documented score (nodesorting.go formula evaluated on capacity / available as last
+   observed for each node) does.  Only the order is compared, not the float values. *)
+Definition util_order_ok (pol : option policy) (world : list (N * (ores * ores))) (o : nobs) : bool :=
+  match pol with
+  | None => true
+  | Some p =>
+      let ms := map (fun '(id, cur) =>
+                       (cur, match alookup id world with
+                             | Some (cap, avail) => score_key (scoreNode p cap avail)
+                             | None => None end)) (o_current o) in
+      forallb (fun a => forallb (fun b =>
+                 match snd a, snd b with
+                 | Some ma, Some mb =>
+                     match Z.compare (fst a) (fst b), Z.compare ma mb with
+                     | Lt, Lt | Eq, Eq | Gt, Gt => true
+                     | _, _ => false
+                     end
+                 | _, _ => true
+                 end) ms) ms
+  end.
+Definition touched_id (op : cop) : option N :=
+  match op with OAdd id _ => Some id | ONode id _ _ _ => Some id | _ => None end.
+
+Fixpoint node_steps (pols : list policy) (cd : coll * list N) (world : list (N * (ores * ores)))
+         (l : list (cop * nobs)) : list N :=
   match l with
   | [] => []
-  | (op, o) :: t => let cd' := step_g cd op in
-                    node_obs_check (fst cd') (snd cd') o ++ score_check pols op o ++ node_steps pols cd' t
+  | (op, o) :: t =>
+      let cd' := step_g cd op in
+      let world' := match touched_id op with
+                    | Some id => if o_touched o then aset id (o_cap o, o_avail o) world else world
+                    | None => world end in
+      node_obs_check (fst cd') (snd cd') o ++ score_check pols op o ++
+      (if util_order_ok (nth_error pols (c_pol (fst cd'))) world' o then [] else [4%N]) ++
+      node_steps pols cd' world' t
   end.
 Definition node_check1 (pols : list policy) (c : node_case) : list N :=
-  let '(p, l) := c in dedup (node_steps pols (init p, []) l).
+  let '(p, l) := c in dedup (node_steps pols (init p, []) [] l).
 Definition node_check (pols : list policy) (cs : list node_case) : list (N * N) :=
   tag 400000 (indexed 0 (map (node_check1 pols) cs)).
